@@ -297,9 +297,15 @@ def combine1fiber(inloglam, objflux, newloglam, objivar=None, verbose=False,
                     # Conserve inverse variance by doing a linear interpolation
                     # on that quantity.
                     #
+                    if objivar is None:
+                        #
+                        # The fit without variance gave every pixel unit weight.
+                        #
+                        thisivar = fullcombmask[these]
+                    else:
+                        thisivar = objivar.ravel()[these] * fullcombmask[these]
                     result = np.interp(newloglam[jnbetween], inloglam_r[these],
-                                       (objivar.ravel()[these] *
-                                        fullcombmask[these]))
+                                       thisivar)
                     #
                     # Grow the fullcombmask below to reject any new sampling
                     # containing even a partial masked pixel.
